@@ -424,7 +424,9 @@ type rop struct {
 	Cl   string
 }
 
-func (o rop) String() string { return fmt.Sprintf("%s(%s%s)", o.Kind, o.Name, map[bool]string{true: "," + o.Cl, false: ""}[o.Cl != ""]) }
+func (o rop) String() string {
+	return fmt.Sprintf("%s(%s%s)", o.Kind, o.Name, map[bool]string{true: "," + o.Cl, false: ""}[o.Cl != ""])
+}
 
 type rcfg struct {
 	Factory  string // "" ok err nil
